@@ -83,8 +83,10 @@ def generate(rng, tier, cls):
 
     if rng.chance(0.3):
         ops.append({'op': 'set', 'tree': tn, 'path': [], 'attr': 'meta',
-                    'value': {'stats': {'custom': 7, 'insertions': 99},
-                              'other': 'x'}})
+                    'value': {'stats': rng.choice([
+                        {'custom': 7, 'insertions': 99},
+                        {'changes': 50, 'files': 60, 'custom': 1}]),
+                        'other': 'x'}})
 
     nch = rng.randint(1, 5 if tier == 'thorough' else 3)
     fkinds = {}
@@ -93,7 +95,9 @@ def generate(rng, tier, cls):
         attrs = {}
 
         if rng.chance(0.3):
-            attrs['meta'] = {'stats': {'reviewers': 2}, 'author': 'a'}
+            attrs['meta'] = {'stats': rng.choice([
+                {'reviewers': 2}, {'changes': 40, 'reviewers': 1},
+                {'files': 99, 'insertions': 5}]), 'author': 'a'}
 
         if rng.chance(0.2):
             attrs['encoding'] = rng.choice(['utf-16', 'utf-32-be', 'cp037'])
@@ -104,8 +108,11 @@ def generate(rng, tier, cls):
             fattrs = {'meta': {'path': 'f%d' % fi}}
 
             if rng.chance(0.3):
-                fattrs['meta']['stats'] = {'custom-key': 'keep',
-                                           'insertions': 41}
+                fattrs['meta']['stats'] = rng.choice([
+                    {'custom-key': 'keep', 'insertions': 41},
+                    {'files': 7, 'changes': 3, 'deletions': 5},
+                    {'lines changed': 100, 'insertions': 1, 'deletions': 2},
+                    {'files': 2}])
 
             k = rng.below(20)
             enc = rng.choice(DIFF_ENCS)
